@@ -8,7 +8,7 @@
 from vlib import facts, rules, e2props
 from vlib.report import Run
 
-ENTRIES = ["checked_append", "checked_prepend", "checked_insert_after", "checked_insert_before", "append_value", "new_node"]
+ENTRIES = ["checked_append", "checked_prepend", "checked_insert_after", "checked_insert_before", "append_value", "new_node", "remove", "remove_subtree"]
 
 
 def main(tier):
